@@ -720,6 +720,7 @@ def unpack_dataclass(spec: ValueSpec) -> Optional[Expression]:
             method_name, method_loc
         ) != method_loc and (
             spec.origin_type is not spec.builder.cls
+            or (spec.builder.dialect is not None and spec.builder.is_nailed)
             or spec.builder.get_unpack_method_name(
                 type_args=type_args,
                 format_name=spec.builder.format_name,
